@@ -44,6 +44,10 @@ def gen_diagram(rng):
     for _ in range(rng.randint(0, 2 * n)):
         a, b = rng.sample(names, 2)
         arrows.add((a, b))
+    if rng.random() < 0.12:
+        # an arrow from a component back to itself is part of the relation that was drawn
+        a = rng.choice(names)
+        arrows.add((a, a))
     decl = {}
     alias = {}
     for i, nme in enumerate(names):
